@@ -24,7 +24,7 @@ MUTANTS = [
       "        return other.ro_uri != self.ro_uri\n", "C43.1"),
     # a subclass that overrides == but keeps the base class's explicit !=
     M("subclass-overrides-eq-only", URI,
-      "class UnknownURI:\n    def __init__(self, uri, error=None):",
+      "class UnknownURI(_BaseURI):\n    def __init__(self, uri, error=None):",
       "class UnknownURI(_BaseURI):\n    def __eq__(self, them):\n        return isinstance(them, UnknownURI) and self._uri == them._uri\n"
       "    def __hash__(self):\n        return hash(self._uri)\n    def __init__(self, uri, error=None):", "C43.1"),
     # ---- C43.2 : hash
@@ -63,7 +63,47 @@ MUTANTS = [
       "C43.4"),
     M("cap-class-leaves-base", URI,
       "class LiteralFileURI(_BaseURI):", "class LiteralFileURI:", "C43.4"),
+    # ---- C43.5 : the type guard of == points the right way (x == x), other.F is read under a positive guard
+    M("literal-eq-guard-flipped", LIT,
+      "        if isinstance(other, _ImmutableFileNodeBase):\n            return self.u == other.u\n",
+      "        if not isinstance(other, _ImmutableFileNodeBase):\n            return self.u == other.u\n", "C43.5"),
+    M("literal-eq-isinstance-args-swapped", LIT,
+      "        if isinstance(other, _ImmutableFileNodeBase):\n            return self.u == other.u\n",
+      "        if isinstance(_ImmutableFileNodeBase, other):\n            return self.u == other.u\n", "C43.5"),
+    M("literal-eq-guard-wrong-class", LIT,
+      "        if isinstance(other, _ImmutableFileNodeBase):\n            return self.u == other.u\n",
+      "        if isinstance(other, LiteralFileURI):\n            return self.u == other.u\n", "C43.5"),
+    M("mutable-eq-type-guard-flipped", MFN,
+      "        if type(self) != type(them):\n            return False\n        return self._uri == them._uri\n",
+      "        if type(self) == type(them):\n            return False\n        return self._uri == them._uri\n", "C43.5"),
+    M("unknown-eq-guard-flipped", UNK,
+      "        if not isinstance(other, UnknownNode):\n            return False\n        return other.ro_uri",
+      "        if isinstance(other, UnknownNode):\n            return False\n        return other.ro_uri", "C43.5"),
+    M("unknown-eq-guard-dropped", UNK,
+      "        if not isinstance(other, UnknownNode):\n            return False\n        return other.ro_uri",
+      "        return other.ro_uri", "C43.5"),
+    M("unknown-eq-guard-only-none", UNK,
+      "        if not isinstance(other, UnknownNode):\n            return False\n        return other.ro_uri",
+      "        if other is None:\n            return False\n        return other.ro_uri", "C43.5"),
     # ---- behaviour-preserving
+    M("benign-mutable-eq-positive-guard", MFN,
+      "        if type(self) != type(them):\n            return False\n        return self._uri == them._uri\n",
+      "        if type(them) == type(self):\n            return them._uri == self._uri\n        return False\n", None),
+    M("benign-mutable-eq-class-identity", MFN,
+      "        if type(self) != type(them):\n            return False\n        return self._uri == them._uri\n",
+      "        if self.__class__ is not them.__class__:\n            return False\n        same = self._uri == them._uri\n"
+      "        return same\n", None),
+    M("benign-unknown-eq-nested", UNK,
+      "        if not isinstance(other, UnknownNode):\n            return False\n        return other.ro_uri == self.ro_uri and other.rw_uri == self.rw_uri",
+      "        if other is None:\n            return False\n        if isinstance(other, UnknownNode):\n"
+      "            return other.ro_uri == self.ro_uri and other.rw_uri == self.rw_uri\n        return False", None),
+    M("benign-literal-eq-tuple-guard", LIT,
+      "        if isinstance(other, _ImmutableFileNodeBase):\n            return self.u == other.u\n        else:\n            return False\n",
+      "        if not isinstance(other, (_ImmutableFileNodeBase,)):\n            return False\n        rv = self.u == other.u\n        return rv\n", None),
+    M("benign-ifn-returns-hoisted", IFN,
+      "    def __eq__(self, other):\n        if isinstance(other, ImmutableFileNode):\n            return self.u.__eq__(other.u)\n",
+      "    def __eq__(self, other):\n        if isinstance(other, ImmutableFileNode):\n            same = self.u.__eq__(other.u)\n            return same\n",
+      None, edits=[(IFN, "            return not self.u.__eq__(other.u)\n", "            differ = not self.u.__eq__(other.u)\n            return differ\n")]),
     M("benign-uri-eq-guard-first", URI,
       "        if isinstance(them, _BaseURI):\n            return self.to_string() == them.to_string()\n        else:\n            return False\n",
       "        if not isinstance(them, _BaseURI):\n            return False\n        mine = self.to_string()\n        return them.to_string() == mine\n",
